@@ -5,6 +5,7 @@ direction of comparisons never matter."""
 from __future__ import annotations
 
 import ast
+import copy
 
 from .model import Func, Module, const_value
 
@@ -154,6 +155,9 @@ class Canon:
                 head = head.value
             if dotted and isinstance(head, ast.Name) and (head.id in self.m.imports or head.id in KNOWN_LIBS) and head.id not in self.scope.defs and head.id not in self.bound:
                 return ('lib', dotted)
+            d = self._derived(e)
+            if d is not None:
+                return self._t(d)
             return ('attr', self._t(e.value), e.attr)
         if isinstance(e, ast.UnaryOp):
             v = self._t(e.operand)
@@ -224,6 +228,7 @@ class Canon:
             sub._cdepth, sub._arity, sub._stack = self._cdepth, self._arity, self._stack
             return ('lambda', len(names), sub._t(e.body))
         if isinstance(e, (ast.ListComp, ast.SetComp, ast.GeneratorExp, ast.DictComp)):
+            e = _enumerate_of_comprehension(e)
             kind = {ast.ListComp: 'listcomp', ast.SetComp: 'setcomp', ast.GeneratorExp: 'genexp', ast.DictComp: 'dictcomp'}[type(e)]
             bound = dict(self.bound)
             gens = []
@@ -389,6 +394,34 @@ class Canon:
             l, r = r, l
         return ('cmp', op, l, r)
 
+    def _derived(self, e):
+        """self.<attr> where the attribute is new with respect to the confirmed tree and caches an expression over the object (bound once in
+        __init__): the expression, written over this method's `self`"""
+        fn = self.scope.fn
+        if fn is None or getattr(fn, 'cls', None) is None or not isinstance(e.value, ast.Name) or not fn.params or e.value.id != fn.params[0] or not isinstance(e.ctx, ast.Load):
+            return None
+        try:
+            from .baseline import ATTRS
+        except ImportError:
+            return None
+        cls_node = fn.cls if isinstance(fn.cls, ast.ClassDef) else getattr(fn.cls, 'node', None)
+        if cls_node is None:
+            return None
+        known = ATTRS.get(self.m.name, {}).get(cls_node.name)
+        if known is None or e.attr in known:
+            return None
+        from .model import derived_attr
+        d = derived_attr(cls_node, e.attr, set(known))
+        if d is None:
+            return None
+        value, me = d
+        value = copy.deepcopy(value)
+        if me != fn.params[0]:
+            for x in ast.walk(value):
+                if isinstance(x, ast.Name) and x.id == me:
+                    x.id = fn.params[0]
+        return value
+
     def _bin(self, op, l, r):
         if op == '+':
             return self._add([l, r])
@@ -477,6 +510,52 @@ def _skey(t):
         _CVAR_RE = re.compile(r"\('cvar', \d+, ")
     r = repr(t)
     return (_CVAR_RE.sub("('cvar', *, ", r), r)
+
+
+class _NameSubst(ast.NodeTransformer):
+    def __init__(self, env):
+        self.env = env
+
+    def visit_Name(self, node):
+        if isinstance(node.ctx, ast.Load) and node.id in self.env:
+            return copy.deepcopy(self.env[node.id])
+        return node
+
+
+def _enumerate_of_comprehension(e):
+    """for a, b in enumerate([E(v) for v in range(N)])   is   for a in range(N) with b = E(a)   (position in range(N) is the value itself)"""
+    for gi, g in enumerate(e.generators):
+        it = g.iter
+        if not (isinstance(it, ast.Call) and isinstance(it.func, ast.Name) and it.func.id == 'enumerate' and len(it.args) == 1 and not it.keywords):
+            continue
+        lc = it.args[0]
+        if not (isinstance(lc, (ast.ListComp, ast.GeneratorExp)) and len(lc.generators) == 1 and not lc.generators[0].ifs and isinstance(lc.generators[0].target, ast.Name)):
+            continue
+        rng = lc.generators[0].iter
+        if not (isinstance(rng, ast.Call) and isinstance(rng.func, ast.Name) and rng.func.id == 'range' and len(rng.args) == 1 and not rng.keywords):
+            continue
+        if not (isinstance(g.target, (ast.Tuple, ast.List)) and len(g.target.elts) == 2 and all(isinstance(x, ast.Name) for x in g.target.elts)):
+            continue
+        a, b = g.target.elts[0].id, g.target.elts[1].id
+        v = lc.generators[0].target.id
+        if a == b or (a != v and any(isinstance(x, ast.Name) and x.id == a for x in ast.walk(lc.elt))):
+            continue
+        e = copy.deepcopy(e)
+        g2 = e.generators[gi]
+        elem = _NameSubst({v: ast.Name(a, ast.Load())}).visit(copy.deepcopy(lc.elt))
+        g2.target = ast.Name(a, ast.Store())
+        g2.iter = copy.deepcopy(rng)
+        sub = _NameSubst({b: elem})
+        g2.ifs = [sub.visit(c) for c in g2.ifs]
+        for later in e.generators[gi + 1:]:
+            later.iter = sub.visit(later.iter)
+            later.ifs = [sub.visit(c) for c in later.ifs]
+        if isinstance(e, ast.DictComp):
+            e.key, e.value = sub.visit(e.key), sub.visit(e.value)
+        else:
+            e.elt = sub.visit(e.elt)
+        return _enumerate_of_comprehension(ast.fix_missing_locations(e))
+    return e
 
 
 def alpha_norm(term):
